@@ -49,7 +49,7 @@ const LATE: u8 = 4;
 const OUTSIDE: u8 = 5;
 const REG: u8 = 6;
 
-async fn registry_client(c: u8) {
+pub async fn registry_client(c: u8) {
     use futures::FutureExt as _;
     let mut held: Option<Addr<Probe<0>>> = None;
     let ops = [c08::ROp::TryFromRegistry, c08::ROp::AlreadyRunning, c08::ROp::FromRegistry, c08::ROp::TryFromRegistry];
@@ -374,6 +374,20 @@ fn cases(tier: Tier) -> Vec<Case> {
                     scene: Box::new(S { parts: *parts, cause, mailbox: mb }),
                 });
             }
+            // pairs of faults (thorough): the behavioural fault plus a cancellation of A before its j-th poll
+            if tier == Tier::Thorough && !matches!(cause, Cause::Cancel(_)) {
+                for (name, parts) in &subs[..6] {
+                    let a_index = if parts.children { 2 } else { 0 };
+                    for j in [2u32, 3, 4, 6] {
+                        v.push(Case {
+                            desc: format!("containment sub={name} cause={cause:?}+Cancel({j}) mailbox={}", mb.name()),
+                            exec: ExecCfg { horizon: 30, cancel: Some((a_index, j)), ..ExecCfg::default() },
+                            bound: None,
+                            scene: Box::new(S { parts: *parts, cause, mailbox: mb }),
+                        });
+                    }
+                }
+            }
             v.push(Case {
                 desc: format!("containment full-scene cause={cause:?} mailbox={}", mb.name()),
                 exec: ExecCfg { horizon: 30, cancel: if let Cause::Cancel(j) = cause { Some((2, j)) } else { None }, ..ExecCfg::default() },
@@ -392,7 +406,7 @@ pub fn property() -> Property {
         clauses: &["later-ops-error", "await-error", "join-none", "timers-stop", "children-released", "bystander-unharmed", "registry-not-running"],
         full_rerun_check: true,
         assumptions: &[
-            "single faults (pairs are not built); cancellation is modelled as the executor dropping the actor task's future instead of performing its j-th poll",
+            "single faults in the quick tier; the thorough tier adds pairs (each behavioural fault combined with a cancellation of the actor before its 2nd/3rd/4th/6th poll); cancellation is modelled as the executor dropping the actor task's future instead of performing its j-th poll",
             "release semantics: the debug_assert!(ping) trip-wire in from_registry is compiled out",
             "sub-scenes with one part are explored with all schedules, combined and full scenes with a deviation bound",
         ],
